@@ -54,3 +54,23 @@ Theorem C16_strict_accepts_fresh_file : forall (pad : N -> Byte.byte) (P : N), M
   Tree.inv_check (Codec.reader_of F) P = Codec.Ok tt /\ CheckM.check_m (Codec.reader_of F) P = Codec.Ok tt.
 Proof. exact EngineFileImage.init_file_checked. Qed.
 Print Assumptions C16_strict_accepts_fresh_file.
+
+(* ---- and what a write transaction READS does not depend on the page size either: after the same committed transactions,
+   after any operations so far, at any bucket path, get / full scan / every range / seek of a present key answer the same
+   under two page sizes (for an absent key the property lets seek land on either neighbour: that does depend on where the
+   leaves are cut, and is compared against both alternatives) ---- *)
+From Coq Require Import List.
+From Jamm Require Spec EnginePathFacts EngineReadBridge EngineScan EngineCfgReads.
+Theorem C16_reads_page_size_irrelevant : forall P1 P2 txs st1 st2 ops path o x es, 0 < P1 -> 0 < P2 ->
+  EngineAllocInv.txs_ok' (Engine.init_db P1) txs -> EngineAllocInv.txs_ok' (Engine.init_db P2) txs ->
+  EngineRefines.run_txs (Engine.init_db P1) txs = Engine.Ok st1 ->
+  EngineRefines.run_txs (Engine.init_db P2) txs = Engine.Ok st2 ->
+  Forall (EnginePathFacts.op_ok (Engine.d_disk st1)) ops -> Forall (EnginePathFacts.op_ok (Engine.d_disk st2)) ops ->
+  Spec.get_at path (EngineAbs.sem_tx ops (EngineAbs.abs_db st1)) = Some (Spec.SBucket o x es) ->
+  EngineScan.tx_scan st1 ops path = EngineScan.tx_scan st2 ops path /\
+  (forall k, EngineScan.tx_cget st1 ops path k = EngineScan.tx_cget st2 ops path k) /\
+  (forall lo hi, EngineScan.tx_range st1 ops path lo hi = EngineScan.tx_range st2 ops path lo hi) /\
+  (forall k, EngineReadBridge.ref_found (Spec.SBucket o x es) k = true ->
+             EngineScan.tx_seek st1 ops path k = EngineScan.tx_seek st2 ops path k).
+Proof. exact EngineCfgReads.reads_page_size_irrelevant. Qed.
+Print Assumptions C16_reads_page_size_irrelevant.
